@@ -513,6 +513,7 @@ class FnWeave:
         self.opaque = False
         self.r5slice = False
         self.r8b = False
+        self.iters = {}
 
 
 def weave_fn(text, w, rules, vacuity=False, name='?'):
@@ -571,6 +572,16 @@ def weave_fn(text, w, rules, vacuity=False, name='?'):
                 repl.append((q, q, '{ '))
                 repl.append((e, e, ' }'))
     loops = None
+    for k, nm in w.iters.items():
+        if loops is None:
+            loops = find_loops(code, body_open, body_close)
+        if k > len(loops):
+            raise ExtractError('lost anchor: loop#%d in fn %s (found %d loops)' % (k, name, len(loops)))
+        kw, bo = loops[k - 1]
+        im = re.search(r'\bin\b', code[kw:bo])
+        if not code.startswith('for', kw) or not im:
+            raise ExtractError('lost anchor: loop#%d in fn %s is not a for loop' % (k, name))
+        inserts.append((kw + im.end(), ' %s:' % nm))
     for where, t in w.at:
         t = t.rstrip('\n') + '\n'
         if where == 'fn-head':
@@ -784,6 +795,10 @@ def build_unit(unit_path, vacuity=False):
                         w.novacuity = True
                     elif d2 == 'r5 slice':
                         w.r5slice = True
+                    elif re.match(r'loop#\d+-iter\s+\w+$', d2):
+                        # R7: names the ghost iterator of the k-th loop (a `for`): `for x in E` -> `for x in NAME: E`
+                        mm = re.match(r'loop#(\d+)-iter\s+(\w+)$', d2)
+                        w.iters[int(mm.group(1))] = mm.group(2)
                     elif d2 == 'r8 consts':
                         # R8b: `X::TYPE` -> the free const `X_TYPE` that rule R8 hoisted out of `impl AttributeStaticType for X`
                         # (same value by construction; Verus does not support associated constants in patterns)
